@@ -210,6 +210,14 @@ def scenarios():
                 {"app": 0, "unit": 3, "text": recv_k(0, 1, [0, 1]) + wait + "load R8 @0[19]\n"},
                 {"app": 0, "unit": 3, "text": other}],
                 "requests": [req(0, "recv", "K", 2, 0, [0, 1])], "streams": [{"key": [1, 0, "recv"], "responses": K(2, [1, 2])}]})
+    # the controller is node 2 and its peer is node 0 (a node id of 0 is a value like any other): both roles on one socket
+    S.append({"name": "peer-is-node-0-both-roles", "node_id": 2, "apps": [{"app": 0, "unit": 3, "text":
+              create(0, 1, [0, 1], 2, 0, 2, remote=0) + recv_m(3, 2, remote=0) + wall(3, 2) + wall(0, 2)}],
+              "requests": [req(0, "create", "K", 2, 0, [0, 1], remote=0), req(0, "recv", "M", 2, 3, remote=0)],
+              "streams": [{"key": [0, 0, "create"], "responses": K(2)}, {"key": [0, 0, "recv"], "responses": M(2)}]})
+    S.append({"name": "peer-is-node-0-recv-keep", "node_id": 1, "apps": [{"app": 0, "unit": 3, "text":
+              recv_k(0, 1, [0, 1], remote=0) + wall(0, 2) + "ret_arr @0\n"}],
+              "requests": [req(0, "recv", "K", 2, 0, [0, 1], remote=0)], "streams": [{"key": [0, 0, "recv"], "responses": K(2, [1, 2])}]})
     # 23. two requests outstanding at once whose qubit ids were passed in the SAME array, re-filled in between (a program that
     #     re-uses its scratch arrays): pair k of a request goes to that request's k-th qubit id
     S.append({"name": "qubit-id-array-reused-by-the-next-request", "apps": [{"app": 0, "unit": 3, "text":
